@@ -228,8 +228,10 @@ def run(chk):
     from causationentropy.core.information.mutual_information import gaussian_mutual_information
     rng = np.random.default_rng(chk.seed)
     warnings.filterwarnings("ignore")
+    from concurrent.futures import ThreadPoolExecutor
+    _mx = ThreadPoolExecutor(max_workers=1).submit(lib.check_theorems, "C08Mx")     # beside the stdlib-style file's pass
     chk.theorems()
-    for r in lib.check_theorems("C08Mx"):      # tier 2 (mathcomp) theorems live in a file of their own
+    for r in _mx.result():      # tier 2 (mathcomp) theorems live in a file of their own
         chk.oblige("theorem", r["name"], r["ok"], r.get("error", "") or ("axioms: " + (", ".join(r["axioms"]) or "none")))
         chk.extra.setdefault("theorem_axioms", {})[r["name"]] = r["axioms"]
     chk.trusted += [
